@@ -36,6 +36,7 @@ namespace PyIpmi.LoopAst
 underscore written `u_`). -/
 inductive Sym where
   | CMDID_SEND_MESSAGE | NETFN_APP | IOError | OSError | IpmbHeaderReq | IpmiTimeoutError | RetryError
+  | NotSupportedError
   | u_dev | u_sock | u_inc_sequence_number | u_drain_socket | u_q | u_receive_ipmi_msg | u_receive_raw
   | u_send_ipmi_msg | u_send_raw | gettimeout | settimeout | recvfrom | verify
   | array | cmdid | constants | decode_bridged_message | empty | encode_bridged_message | encode_ipmb_msg
@@ -184,6 +185,11 @@ end
 def B.head? : B → Option S
   | .nil => none
   | .cons s _ => some s
+
+/-- a suite without its first statement -/
+def B.tail : B → B
+  | .nil => .nil
+  | .cons _ r => r
 
 def B.length : B → Nat
   | .nil => 0
